@@ -114,12 +114,21 @@ class DrawBudgetExceeded(BaseException):
 
 
 def _model_key(m):
-    return (int(m["dim"]), int(m["ns"]), m["noise"], m["src"], m.get("level", "catalogue"))
+    return (int(m["dim"]), int(m["ns"]), m["noise"], m["src"], m.get("level", "catalogue"), m.get("kind", "logistic"))
+
+
+# model kinds the simulation documents as refused ("The model type should be 'logistic'"): every shipped kind that can be
+# built from hand-written parameters; the joint model is a *subclass* of the logistic one
+OTHER_KINDS = ("linear", "shared_speed_logistic", "joint", "mixture_logistic")
 
 
 @functools.lru_cache(maxsize=None)
 def _master_model(key):
-    dim, ns, noise, src, level = key
+    dim, ns, noise, src, level, kind = key
+    if kind != "logistic":
+        from ..models import build_model
+
+        return build_model({"kind": kind, "dim": dim, "ns": ns, "noise": noise, "variant": 0})
     if src == "loaded":
         d = model_dict({"kind": "logistic", "dim": dim, "ns": ns, "noise": noise, "variant": 0})
         if level != "catalogue":
@@ -367,6 +376,9 @@ def execute(case):
     model = get_model(case["model"])
     feats, vp = materialize(case, model)
     valid, why = documented_validity(feats, vp)
+    if type(model).__name__ != "LogisticModel":
+        # documented requirement on the model itself ("the model type should be 'logistic' (LogisticModel)")
+        valid, why = False, "model of another kind than logistic"
     seed = case["seed"]
     rec = Recorder()
     out = {"model": model, "feats": feats, "vp": vp, "valid": valid, "why": why, "rec": rec, "exc": None, "result": None,
@@ -1010,6 +1022,8 @@ def bounds(tier):
         "tables": f"every table with <= {3 if tier == 'quick' else 4} rows over 2 identifiers x ages {TABLE_TIMES} x identifier type "
                   f"(str / numeric-looking str / int) + {len(HAND_TABLES)} hand-written tables",
         "invalid_designs": len(invalid_designs()),
+        "other_model_kinds": f"an otherwise valid request (random design and visit table, full and partial feature list) on every other model kind {list(OTHER_KINDS)}: "
+                             "refused with the algorithm-input error before any draw",
         "blocks": [[b, list(_model_key(m)), f, len(v), s] for b, m, f, v, s in plan],
         "draw_budget": DRAW_BUDGET,
         "seeds": "{0, 1, VERIF_SEED} ('all') or {0} ('first')",
@@ -1023,6 +1037,7 @@ def shards(tier, seed):
     for mi, m in enumerate(inv_models):
         for lo in range(0, n_inv, 70):
             out.append({"kind": "invalid", "model": m, "lo": lo, "hi": min(n_inv, lo + 70), "seed": 0})
+    out.append({"kind": "invalid-model", "seed": 0})
     plan = _tier_plan(tier)
     for bi, (block, m, f, visits, smode) in enumerate(plan):
         step = CHUNK[block]
@@ -1039,6 +1054,14 @@ def shards(tier, seed):
 
 
 def _cases_of(shard):
+    if shard["kind"] == "invalid-model":
+        # an otherwise valid request (both design families, 2 feature lists) on every other model kind
+        for kind in OTHER_KINDS:
+            m = dict(M(dim=4, ns=2) if kind == "mixture_logistic" else M(), kind=kind)
+            for v in (dict(BASE_RANDOM), {"visit_type": "dataframe", "table": dict(BASE_TABLE)}):
+                for f in ("all", "subset"):
+                    yield {"model": m, "features": f, "visit": v, "seed": shard["seed"]}
+        return
     if shard["kind"] == "invalid":
         inv = invalid_designs()
         for f, v in inv[shard["lo"]:shard["hi"]]:
@@ -1060,7 +1083,7 @@ def run_shard(shard):
         acc.outcome(outcome)
         if nontrivial:
             acc.nontriv(digest(case))
-        wanted = "invalid:refused:LeaspyAlgoInputError" if shard["kind"] == "invalid" else "valid:completed"
+        wanted = "invalid:refused:LeaspyAlgoInputError" if shard["kind"].startswith("invalid") else "valid:completed"
         if outcome.startswith(wanted) and "visits=1:" not in outcome and not acc.samples:
             acc.sample({"case": case, "outcome": outcome})
         for v in vio:
